@@ -480,6 +480,10 @@ def api_obligations(rep):
         outer = [s_ for s_ in p.steps if not isinstance(s_, FetchDataframeStep)]
         outer_limit = any(getattr(getattr(s_, 'query', None), 'limit', None) is not None for s_ in outer)
         safe = not (g or h or d or o)
+        if inner_limit and ob and not f[0].query.order_by:
+            rep.failed(oid, 'pysym', f'LIMIT is pushed into the fetch `{f[0].query}` without the ORDER BY of the query: the integration returns an arbitrary 5 rows', function=fn, clause=clause,
+                       replay={'input': sql, 'dialect': 'mindsdb', 'fires': True, 'observed': f'plan: {[str(getattr(s_, "query", type(s_).__name__)) for s_ in p.steps]}', 'expected': 'ORDER BY together with LIMIT'})
+            continue
         if inner_limit and not safe:
             why = [n for n, x in (('GROUP BY', g), ('HAVING', h), ('DISTINCT', d), ('OFFSET', o)) if x]
             rep.failed(oid, 'pysym', f'LIMIT is pushed into the fetch `{f[0].query}` although the outer step applies {", ".join(why)}: the limit then counts rows before that step', function=fn, clause=clause,
@@ -582,6 +586,101 @@ def udf_obligations(rep):
                        replay={'input': sql, 'dialect': 'mindsdb', 'fires': True, 'observed': f'plan: {[str(getattr(s_, "query", type(s_).__name__)) for s_ in p.steps]}', 'expected': 'limit / offset applied once, after filtering'})
         else:
             rep.proved(oid, 'pysym', f'limit {"in the fetch" if fq.limit is not None else "on the outer step"}', function=fn, clause=clause)
+
+
+def subselect_obligations(rep):
+    """plan_sub_select (the shared tail of api selects, nested selects, native queries and injected data): the outer select may be skipped only
+    if it is a bare `SELECT *`; any clause - GROUP BY, ORDER BY, HAVING, DISTINCT, WHERE, LIMIT, OFFSET, a real select list - needs the step"""
+    from mindsdb_sql.parser.ast import Select, Star, Identifier
+    from mindsdb_sql.planner.steps import SubSelectStep
+    from mindsdb_sql.planner.query_planner import QueryPlanner
+    QP = 'mindsdb_sql.planner.query_planner'
+    fn = f'{QP}:QueryPlanner.plan_sub_select'
+    for clause_name in ('none', 'group_by', 'order_by', 'having', 'distinct', 'where', 'limit', 'offset', 'two-targets', 'column-target'):
+        def make_args(ex, clause_name=clause_name):
+            planner = SymObj({QueryPlanner}, 'planner', prov='param')
+            planner.known_not_none = True
+            pl = SymObj(None, 'plan', prov='param')
+            pl.known_not_none = True
+            added = []
+            pl.fields['add_step'] = Stub(lambda ex_, a, k: (added.append(a[0]), a[0])[1], 'add_step')
+            planner.fields['plan'] = pl
+            prev = SymObj(None, 'prev_step', prov='param')
+            prev.known_not_none = True
+            prev.fields['result'] = SymObj(None, 'prev_result', prov='param')
+            t = SymObj({Identifier}, 'from_table', prov='param')
+            t.known_not_none = True
+            t.closed = True
+            t.fields.update(alias=None, parentheses=False, parts=ex.param_container(['t']))
+            q = SymObj({Select}, 'query', prov='param')
+            q.known_not_none = True
+            q.copyable = True
+            star = SymObj({Star}, 'star', prov='param')
+            star.known_not_none = True
+            col = SymObj({Identifier}, 'col', prov='param')
+            col.known_not_none = True
+            col.copyable = True
+            col.closed = True
+            col.fields.update(alias=None, parentheses=False, parts=ex.param_container(['c']))
+            targets = [star]
+            if clause_name == 'two-targets':
+                targets = [star, col]
+            if clause_name == 'column-target':
+                targets = [col]
+            fields = dict(group_by=None, order_by=None, having=None, distinct=False, where=None, limit=None, offset=None, targets=ex.param_container(targets), from_table=t,
+                          alias=None, parentheses=False, using=None, cte=None, mode=None, modifiers=ex.param_container([]))
+            if clause_name == 'distinct':
+                fields['distinct'] = True
+            elif clause_name in fields and clause_name not in ('targets',):
+                v = SymObj(None, f'query.{clause_name}', prov='param')
+                v.known_not_none = True
+                fields[clause_name] = ex.param_container([v]) if clause_name in ('group_by', 'order_by') else v
+            q.fields.update(fields)
+            ex.path_state.update(added=added, prev=prev, q=q)
+            return [planner, q, prev], {}
+
+        def post(ex, o, clause_name=clause_name):
+            if o.kind != 'return':
+                return f'raises {getattr(o.value, "__name__", o.value)}'
+            st = o.state
+            if clause_name == 'none':
+                if o.value is not st['prev'] or st['added']:
+                    return 'a bare SELECT * over the previous result adds a step / does not return the previous step'
+                return None
+            if o.value is st['prev'] or not st['added']:
+                return f'the outer select has {clause_name.replace("_", " ").upper()} but no step applies it: the previous result is returned as the answer'
+            step = st['added'][0]
+            if not (isinstance(step, SymObj) and step.cls is SubSelectStep and o.value is step and len(st['added']) == 1):
+                return f'the result {o.value!r} is not the one SubSelectStep added'
+            if step.fields.get('dataframe') is not st['prev'].fields['result']:
+                return 'the sub-select does not read the previous result'
+            q2 = step.fields.get('query')
+            if getattr(q2, 'copy_of', None) is not st['q'] or q2.fields.get('from_table') is not None:
+                return 'the sub-select is not a copy of the outer select without its FROM'
+            return None
+        v = pysym.verify(QP, 'QueryPlanner.plan_sub_select', make_args, post)
+        oid = f'C08.subselect.{clause_name}'
+        clause = 'ensures: previous step returned unchanged iff the outer select is a bare SELECT *; otherwise exactly one SubSelectStep(copy of the select without FROM, previous result)'
+        rp = {'distinct': 'select distinct * from api1.t', 'offset': 'select * from api1.t limit 5 offset 2'}.get(clause_name)
+        if v.status == PROVED:
+            rep.proved(oid, 'pysym', v.detail, function=fn, clause=clause, seconds=v.seconds)
+        elif v.status == FAILED:
+            rep.failed(oid, 'pysym', v.detail, function=fn, clause=clause, cex=v.cex, replay=replay_subselect(rp or 'select distinct * from api1.t'))
+        else:
+            rep.undecided(oid, 'pysym', v.detail, function=fn, clause=clause)
+
+
+def replay_subselect(sql):
+    from mindsdb_sql import parse_sql
+    from mindsdb_sql.planner import plan_query
+    ints = [{'name': 'api1', 'class_type': 'api', 'type': 'data'}]
+    try:
+        p = plan_query(parse_sql(sql), integrations=ints, default_namespace='mindsdb')
+    except Exception as e:
+        return {'input': sql, 'dialect': 'mindsdb', 'fires': False, 'observed': f'{type(e).__name__}: {e}'[:120]}
+    texts = [str(getattr(s_, 'query', type(s_).__name__)) for s_ in p.steps]
+    ok = any('DISTINCT' in t.upper() for t in texts) if 'distinct' in sql else any('OFFSET' in t.upper() for t in texts)
+    return {'input': sql, 'dialect': 'mindsdb', 'fires': not ok, 'observed': f'plan: {texts}', 'expected': 'a step that applies the clause'}
 
 
 def cte_lookup_obligations(rep):
@@ -1058,6 +1157,8 @@ def bounded(rep, tier):
 def check(rep, tier):
     from vlib import statecensus
     statecensus.obligations(rep, 'C08', 'planner')
+    from vlib import resolverdep
+    resolverdep.obligations(rep, tier, 'C08')
     from vlib import walkerdep
     walkerdep.obligations(rep, tier, 'C08')
     rep.dropped = 'check_use_limit and PlanJoinTablesQuery.plan read with ast.parse and executed symbolically; context/semi-join lemmas run the real planner on every shape of a finite case analysis'
@@ -1070,6 +1171,7 @@ def check(rep, tier):
     union_obligations(rep)
     cte_lookup_obligations(rep)
     api_obligations(rep)
+    subselect_obligations(rep)
     udf_obligations(rep)
     semijoin_obligations(rep)
     outer_obligation(rep)
